@@ -48,8 +48,21 @@ def random_program(rng):
             sig = rels[n] if n in rels else ctor_rels[n]
             args = [rng.choice(pool[t]) for t in sig]
             atoms.append(("pred" if n in preds else "func", n, args, sig))
+        # a premise equality between two variables of the same type (bound by the atoms above)
+        eqs = []
+        if rng.random() < 0.15:
+            vt0 = {}
+            for a in atoms:
+                for v, t in zip(a[2], a[3]):
+                    vt0.setdefault(t, [])
+                    if v not in vt0[t]:
+                        vt0[t].append(v)
+            cand = [vs_ for vs_ in vt0.values() if len(vs_) >= 2]
+            if cand:
+                a_, b_ = rng.sample(rng.choice(cand), 2)
+                eqs.append((a_, b_))
         # conclusions over the premise variables
-        used = [v for a in atoms for v in a[2]]
+        used = [v for a in atoms for v in a[2]] + [v for e_ in eqs for v in e_]
         vs = sorted(set(used))
         vtype = {}
         for a in atoms:
@@ -101,6 +114,7 @@ def random_program(rng):
                     prem.append("if %s!;" % call)
                 else:
                     prem.append("if %s = %s;" % (res, call))
+        prem += ["if %s = %s;" % e_ for e_ in eqs]
         lines.append("rule r%s { %s %s }" % ("xyz"[ri], " ".join(prem), " ".join(concl)))
     if enum and rng.random() < 0.6 and preds:
         unary = [p for p in preds if len(preds[p]) == 1]
